@@ -288,6 +288,9 @@ class Gen:
       return num(rng, v)
     fit_lv = [l for l in self.lvs if self.lv_max(l) < (1 << w)]
     if fit_lv and rng.random() < 0.3: return ['lv', rng.choice(fit_lv)[0]]
+    # a loop variable whose LAST value fits although an earlier (larger) one may not: must be rejected then
+    last_fit = [l for l in self.lvs if 0 <= self.lv_last(l) < (1 << w)]
+    if last_fit and rng.random() < 0.12 + 2 * self.noise: return ['lv', rng.choice(last_fit)[0]]
     fit_t = [t for t, (tw, ex) in self.tmps.items() if not ex and tw <= w]
     if fit_t and rng.random() < 0.2: return ['tmp', rng.choice(fit_t)]
     if rng.random() < 0.06:
@@ -299,6 +302,11 @@ class Gen:
     i, a, b, c = l
     r = list(range(a, b, c)) if c != 0 else []
     return max(r) if r else max(a, b, c, 0)
+
+  def lv_last(self, l):
+    i, a, b, c = l
+    r = list(range(a, b, c)) if c != 0 else []
+    return r[-1] if r else -1
 
   def const_int(self, lo, hi):
     return num(self.rng, self.rng.randint(lo, hi))
@@ -466,7 +474,8 @@ class Gen:
     rr = rng.random()
     if rr < 0.6: a, b, c = 0, rng.randint(1, 6), 1
     elif rr < 0.8: a = rng.randint(0, 3); b = a + rng.randint(0, 5); c = rng.choice([1, 1, 2, 3])
-    elif rr < 0.95: b = rng.randint(0, 3); a = b + rng.randint(0, 5); c = rng.choice([-1, -1, -2])
+    elif rr < 0.88: b = rng.randint(0, 3); a = b + rng.randint(0, 5); c = rng.choice([-1, -1, -2])
+    elif rr < 0.95: a = rng.choice([2, 3, 4, 7, 8, 9, 15, 16, 17]); b = rng.randint(0, min(3, a - 1)); c = -rng.randint(1, 4)
     else: a, b, c = rng.choice([(0, 0, 1), (3, 3, 1), (-1, 3, 1), (0, 4, 0), (2, -1, -1)])
     self.lvs.append((i, a, b, c))
     body = [self.stmt(d - 1) for _ in range(rng.randint(1, 2))]
@@ -528,6 +537,35 @@ def gen_wild(rng, uid):
       g.lvs.pop()
       block.append(['for', i, a, b, c, body])
   return {'uid': uid, 'stream': 'wild', 'sigs': g.sigs, 'block': block}
+
+# ---- descending constant ranges: the loop variable must be sized by its LARGEST (first) value
+
+def gen_desc(rng, uid):
+  """`for i in range(a, b, -c)` (a > b >= 0) whose loop variable meets a w-bit operand / target: accepted and
+  simulated when the first value fits w bits, rejected when only the last one does"""
+  g = Gen(rng, uid, 'desc', 0.0)
+  w = rng.choice([1, 2, 3, 4, 5, 8])
+  top = (1 << w) - 1
+  r = rng.random()
+  if r < 0.45: a = top + rng.randint(1, 2 * top + 2)      # the first value does not fit
+  elif r < 0.65: a = top + 1
+  else: a = rng.randint(1, top)                           # everything fits
+  c = -rng.randint(1, 4)
+  b = rng.randint(0, min(a - 1, top))
+  rg = list(range(a, b, c))
+  if rg[-1] > top: b = 0; c = -1                          # make the last value fit
+  x = g.new_in(w); o = g.new_out(w); o1 = g.new_out(1)
+  X, O, O1, I = ['sig', x[0], w], ['sig', o[0], w], ['sig', o1[0], 1], ['lv', 0]
+  k = rng.random()
+  if k < 0.3: body = [['asg', O, ['bin', rng.choice(['add', 'sub', 'bxor', 'band', 'bor']), X, I] if rng.random() < 0.7 else ['bin', 'add', I, X]]]
+  elif k < 0.5: body = [['asg', O, I]]
+  elif k < 0.7: body = [['ifs', ['cmp', rng.choice(list(CMPOP)), X, I], [['asg', O, X]], []]]
+  elif k < 0.8: body = [['asg', O1, ['cmp', rng.choice(list(CMPOP)), I, X]]]
+  elif k < 0.9: body = [['asg', O, ['ite', ['sig', x[0], w] if w == 1 else ['idx', x[0], w, num(rng, 0)], X, I]]]
+  else:
+    big = g.new_in(max(2, a + rng.randint(0, 1)))
+    body = [['asg', O1, ['idx', big[0], big[1], I]]]
+  return {'uid': uid, 'stream': 'desc', 'sigs': g.sigs, 'block': [['for', 0, a, b, c, body]]}
 
 # ---- labelled streams: one per known soundness hole of the checker (each is a parameterised witness)
 
